@@ -31,6 +31,8 @@ type Shared struct {
 	locTable     sync.Map // interpreted *time.Location → native *time.Location
 	loadSeconds  float64
 	overlayFiles []string
+	harnessFiles map[string]string // harness file name → real path actually loaded
+	degraded     []string          // harness files replaced or dropped because they do not type-check
 }
 
 // packages whose init functions are executed (once, concretely). Everything
@@ -50,8 +52,11 @@ var initWhitelist = map[string]bool{
 // LoadProgram loads the package in repoDir with the harness files of
 // harnessDir overlaid as zz_verif_<name>.go (build tag verif).
 func LoadProgram(repoDir, harnessDir string) (*Shared, error) {
-	overlay := make(map[string][]byte)
-	var names []string
+	// harness file name → real path; a file that does not type-check against the current
+	// tree is replaced by harness/fallback/<name> when that exists and dropped otherwise
+	// (graceful degradation: the entries it defines are then missing, see runCheck)
+	files := map[string]string{}
+	var degraded []string
 	if harnessDir != "" {
 		ents, err := os.ReadDir(harnessDir)
 		if err != nil {
@@ -61,42 +66,79 @@ func LoadProgram(repoDir, harnessDir string) (*Shared, error) {
 			if e.IsDir() || !strings.HasSuffix(e.Name(), ".go") || strings.HasSuffix(e.Name(), "_test.go") {
 				continue
 			}
-			data, err := os.ReadFile(filepath.Join(harnessDir, e.Name()))
+			files[e.Name()] = filepath.Join(harnessDir, e.Name())
+		}
+	}
+	var initial []*packages.Package
+	var names []string
+	for attempt := 0; ; attempt++ {
+		overlay := make(map[string][]byte)
+		names = names[:0]
+		for n, p := range files {
+			data, err := os.ReadFile(p)
 			if err != nil {
 				return nil, err
 			}
-			virt := filepath.Join(repoDir, "zz_verif_"+e.Name())
-			overlay[virt] = data
-			names = append(names, e.Name())
+			overlay[filepath.Join(repoDir, "zz_verif_"+n)] = data
+			names = append(names, n)
 		}
-	}
-	sort.Strings(names)
-	cfg := &packages.Config{
-		Mode:       packages.LoadAllSyntax,
-		Dir:        repoDir,
-		BuildFlags: []string{"-tags=verif"},
-		Overlay:    overlay,
-		Env:        append(os.Environ(), "GOFLAGS=-mod=mod", "GOPROXY=off", "GOSUMDB=off", "GOTOOLCHAIN=local", "CGO_ENABLED=0"),
-	}
-	initial, err := packages.Load(cfg, ".")
-	if err != nil {
-		return nil, err
-	}
-	if len(initial) != 1 {
-		return nil, fmt.Errorf("expected one package, got %d", len(initial))
-	}
-	var errs []string
-	packages.Visit(initial, nil, func(p *packages.Package) {
-		for _, e := range p.Errors {
-			errs = append(errs, e.Error())
+		sort.Strings(names)
+		cfg := &packages.Config{
+			Mode:       packages.LoadAllSyntax,
+			Dir:        repoDir,
+			BuildFlags: []string{"-tags=verif"},
+			Overlay:    overlay,
+			Env:        append(os.Environ(), "GOFLAGS=-mod=mod", "GOPROXY=off", "GOSUMDB=off", "GOTOOLCHAIN=local", "CGO_ENABLED=0"),
 		}
-	})
-	if len(errs) > 0 {
-		return nil, fmt.Errorf("package errors:\n%s", strings.Join(errs, "\n"))
+		var err error
+		initial, err = packages.Load(cfg, ".")
+		if err != nil {
+			return nil, err
+		}
+		if len(initial) != 1 {
+			return nil, fmt.Errorf("expected one package, got %d", len(initial))
+		}
+		var errs []string
+		badFiles := map[string]string{}
+		foreign := false
+		packages.Visit(initial, nil, func(p *packages.Package) {
+			for _, e := range p.Errors {
+				errs = append(errs, e.Error())
+				hit := false
+				for n := range files {
+					if strings.Contains(e.Pos, "zz_verif_"+n+":") {
+						if _, seen := badFiles[n]; !seen {
+							badFiles[n] = e.Error()
+						}
+						hit = true
+					}
+				}
+				if !hit {
+					foreign = true
+				}
+			}
+		})
+		if len(errs) == 0 {
+			break
+		}
+		if foreign || len(badFiles) == 0 || attempt >= 3 {
+			return nil, fmt.Errorf("package errors:\n%s", strings.Join(errs, "\n"))
+		}
+		for n, why := range badFiles {
+			fb := filepath.Join(harnessDir, "fallback", n)
+			if _, err := os.Stat(fb); err == nil && files[n] != fb {
+				files[n] = fb
+				degraded = append(degraded, fmt.Sprintf("%s replaced by its public-API fallback (%s)", n, why))
+			} else {
+				delete(files, n)
+				degraded = append(degraded, fmt.Sprintf("%s dropped (%s)", n, why))
+			}
+		}
+		sort.Strings(degraded)
 	}
 	prog, pkgs := ssautil.AllPackages(initial, ssa.InstantiateGenerics)
 	prog.Build()
-	sh := &Shared{prog: prog, target: pkgs[0], fset: prog.Fset, overlayFiles: names,
+	sh := &Shared{prog: prog, target: pkgs[0], fset: prog.Fset, overlayFiles: names, harnessFiles: files, degraded: degraded,
 		sizes: types.SizesFor("gc", "amd64"), globals: make(map[*ssa.Global]*value)}
 	if sh.target == nil {
 		return nil, fmt.Errorf("no SSA package for target")
